@@ -37,9 +37,13 @@ var testMode = false
 // When discarding a newly added KV in `Cleanup`, the non-persistent flags will be cleared.
 // If there are persistent flags associated with key, we will keep this key in node without value.
 type ART struct {
-	allocator       artAllocator
-	root            artNode
-	stages          []arena.MemDBCheckpoint
+	allocator artAllocator
+	root      artNode
+	stages    []arena.MemDBCheckpoint
+	// lastCheckpoint is the position of the newest checkpoint handed out by Checkpoint().
+	// Every checkpoint that can still be reverted to lies at or before it, so a value at or
+	// before it must not be overwritten in place: RevertToCheckpoint could not restore it.
+	lastCheckpoint  *arena.MemDBCheckpoint
 	vlogInvalid     bool
 	dirty           bool
 	entrySizeLimit  uint64
@@ -422,6 +426,10 @@ func (t *ART) trySwapValue(addr arena.MemdbArenaAddr, value []byte) (int, bool) 
 			return len(oldVal), false
 		}
 	}
+	if t.lastCheckpoint != nil && !t.allocator.vlogAllocator.CanModify(t.lastCheckpoint, addr) {
+		// the old value may be needed by RevertToCheckpoint.
+		return len(oldVal), false
+	}
 	if len(oldVal) > 0 && len(oldVal) == len(value) {
 		copy(oldVal, value)
 		return 0, true
@@ -487,6 +495,8 @@ func (t *ART) IsStaging() bool {
 // Checkpoint returns a checkpoint of ART.
 func (t *ART) Checkpoint() *arena.MemDBCheckpoint {
 	cp := t.allocator.vlogAllocator.Checkpoint()
+	last := cp
+	t.lastCheckpoint = &last
 	return &cp
 }
 
@@ -562,6 +572,7 @@ func (t *ART) Cleanup(h int) {
 func (t *ART) Reset() {
 	t.root = nullArtNode
 	t.stages = t.stages[:0]
+	t.lastCheckpoint = nil
 	t.dirty = false
 	t.vlogInvalid = false
 	t.size = 0
